@@ -234,7 +234,7 @@ Qed.
 Lemma R_consumer_stop s c h tag q : R (consumer_stop s c h tag) q = R s q.
 Proof.
   unfold consumer_stop. destruct (get_chan s c h) as [ch|]; auto. destruct (find_consumer ch tag) as [cm|]; auto.
-  assert (E : forall st, R (queue_remove_consumer st (c_queue cm) tag) q = R st q).
+  assert (E : forall st, R (queue_remove_consumer st (c_queue cm) c h tag) q = R st q).
   { intros st. unfold queue_remove_consumer. destruct (get_queue st (c_queue cm)) as [qu|] eqn:Eq; auto.
     match goal with |- R (if ?b then ?a <| autodel ::= _ |> else ?a') q = _ => assert (Ea : R a q = R st q) end.
     { unfold R. rewrite get_queue_set_queue. destruct (seqb q (c_queue cm)) eqn:E1; auto.
@@ -246,7 +246,7 @@ Qed.
 Lemma QA_consumer_stop s c h tag q : QA (consumer_stop s c h tag) q = QA s q.
 Proof.
   unfold consumer_stop. destruct (get_chan s c h) as [ch|]; auto. destruct (find_consumer ch tag) as [cm|]; auto.
-  assert (E : forall st, QA (queue_remove_consumer st (c_queue cm) tag) q = QA st q).
+  assert (E : forall st, QA (queue_remove_consumer st (c_queue cm) c h tag) q = QA st q).
   { intros st. unfold queue_remove_consumer. destruct (get_queue st (c_queue cm)) as [qu|] eqn:Eq; auto.
     match goal with |- QA (if ?b then ?a <| autodel ::= _ |> else ?a') q = _ => assert (Ea : QA a q = QA st q) end.
     { unfold QA. rewrite get_queue_set_queue. destruct (seqb q (c_queue cm)) eqn:E1; auto.
@@ -259,7 +259,7 @@ Qed.
 Lemma U_consumer_stop s c0 h0 tag c h : U (consumer_stop s c0 h0 tag) c h = U s c h.
 Proof.
   unfold consumer_stop. destruct (get_chan s c0 h0) as [ch|] eqn:E; auto. destruct (find_consumer ch tag) as [cm|]; auto.
-  destruct (c_status cm); auto; (rewrite (U_same_conns _ _ c h (proj2 (proj2 (proj2 conns_queue_ops)) _ _ _));
+  destruct (c_status cm); auto; (rewrite (U_same_conns _ _ c h (proj2 (proj2 (proj2 conns_queue_ops)) _ _ _ _ _));
     rewrite U_set_chan by (eapply get_chan_conn; eauto);
     destruct ((c =? c0) && (h =? h0)) eqn:Eb; auto;
     apply andb_prop in Eb; destruct Eb as [E1 E2]; apply N.eqb_eq in E1, E2; subst; unfold U; rewrite E; reflexivity).
